@@ -1159,10 +1159,10 @@ func (c *compiler) doOptimize(in []instruction) []instruction {
 			n += 1
 
 		case n < len(in)-1 && in[n].Code == codeLocalGet && in[n+1].Code == codeGetAttr:
-			out = append(out, instruction{Pos: in[n].Pos, Code: codeFastGetAttr, A: in[n].A, B: in[n+1].A})
+			out = append(out, instruction{Pos: in[n+1].Pos, Code: codeFastGetAttr, A: in[n].A, B: in[n+1].A}) // what can fail is the field access: its position (the local may be a hidden slot written elsewhere)
 			n += 1
 		case n < len(in)-1 && in[n].Code == codeLocalGet && in[n+1].Code == codeSetAttr:
-			out = append(out, instruction{Pos: in[n].Pos, Code: codeFastSetAttr, A: in[n].A, B: in[n+1].A})
+			out = append(out, instruction{Pos: in[n+1].Pos, Code: codeFastSetAttr, A: in[n].A, B: in[n+1].A})
 			n += 1
 
 		case n < len(in)-1 && in[n].Code == codePush && in[n+1].Code == codeAdd:
